@@ -111,10 +111,16 @@ proof fn lemma_frames_concat(m1: Message, m2: Message, rest: Seq<u8>)
 
 
 def run(run, replay=None):
+    run.fallbacks.append(("MessageStream framing", lambda: cex_mod().find(run, {}, skip_known=True)))
     unit = build(run)
     res = unit.run(rlimit=60)
     run.add_verus(unit, res, cex_finder=lambda f: find_cex(run, f))
     run.assumptions.append("Read::read_exact / Write::write_all obey their std contracts on the transport (this is what makes decoding independent of how the byte stream is split into reads); the Python server (src/scripts/repl_server.py, socket.recv(3) may return fewer bytes) and DummyVM::eval's history are not carried.")
+
+
+def cex_mod():
+    from units.C25 import cex
+    return cex
 
 
 def find_cex(run, failure):
